@@ -82,7 +82,19 @@ func C20(c *Ctx) {
 			}
 			ab, bb := ref.FeBytes(a.v), ref.FeBytes(b.v)
 			al, bl := rawOr(a.e), rawOr(b.e)
-			m := new(field.Element).Multiply(a.e, b.e)
+			m, sq2 := new(field.Element), new(field.Element)
+			// callee-saved register discipline of the (assembly) implementation: Multiply and
+			// Square are tiny wrappers that the compiler inlines here, so the assembly is called
+			// from this very frame and BP must read the same before and after
+			bp0 := getBP()
+			m.Multiply(a.e, b.e)
+			bp1 := getBP()
+			sq2.Square(a.e)
+			bp2 := getBP()
+			if bp0 != bp1 || bp0 != bp2 {
+				c.Fail("frame-pointer register (BP) not preserved across Multiply/Square: a frame-pointer unwind (execution tracer, block/mutex profile) would crash in one build only", map[string]any{"before": bp0, "after-Multiply": bp1, "after-Square": bp2, "build": c.Config})
+			}
+			c.Tally("callee-saved register (BP) observations")
 			c.Eval(true, []byte("Multiply"), ab[:], bb[:], al[:], bl[:])
 			c.checkFe(m, ref.FMul(a.v, b.v), "Multiply", det)
 			s := new(field.Element).Square(a.e)
